@@ -181,6 +181,11 @@ def run(ctx):
     # non-accepting state; shared with C11-R3 / C01-R2 / C02-R3)
     from . import c11 as _c11
     _c11.watermark_values(ctx, "C03-R5")
+    # R6: a token put into the mask by the slicer shortcut must be consumable (otherwise the model is led into a dead end):
+    # the shortcut's two soundness conditions (shared with C10-R1/R4, C01-R5, C02-R4)
+    from . import c10 as _c10
+    _c10.subsume_guard(ctx, "C03-R6")
+    _c10.subsume_operands(ctx, "C03-R6")
 
     # ------------------------------------------------------------------ R3 empty mask => stop
     cm = ctx.body(TP + "::compute_mask_inner")
